@@ -46,7 +46,7 @@ REACH = [("yamlpath/commands/yaml_set.py", "write_output_document,save_to_file,s
          ("yamlpath/commands/yaml_merge.py", "write_output_document,validateargs", "yaml_merge write-out"),
          ("yamlpath/commands/eyaml_rotate_keys.py", "main", "eyaml_rotate_keys.main")]
 SIZES = {"quick": dict(a=1600, b=128), "thorough": dict(a=12000, b=500)}
-REQUIRED_COUNTERS = ["a_cases", "b_scenarios", "faults_oserror", "faults_kill", "faults_write_offset", "baseline_backup_checked", "faults_serializer_assertion", "b_symlinked_targets"]
+REQUIRED_COUNTERS = ["a_cases", "b_scenarios", "faults_oserror", "faults_kill", "faults_write_offset", "baseline_backup_checked", "faults_serializer_assertion", "b_symlinked_targets", "b_stale_backup_with_equal_stat"]
 EXHAUSTIVE_NOTE = "every I/O event index k of each explored scenario instance (OSError and kill), plus 4 byte offsets of the dump"
 
 
@@ -64,10 +64,20 @@ def listing(box):
     return out
 
 
-def fresh(box, files, symlinked=None):
-    """symlinked: name of the one file that is reached through a relative symbolic link (releases/current layouts)."""
+def fresh(box, files, symlinked=None, same_stat=None):
+    """symlinked: name of the one file that is reached through a relative symbolic link (releases/current layouts).
+    same_stat: (a, b) - give file b the modification time of file a."""
     shutil.rmtree(box, ignore_errors=True)
     os.makedirs(box)
+    try:
+        _fresh(box, files, symlinked)
+    finally:
+        if same_stat:
+            st = os.stat(os.path.join(box, same_stat[0]))
+            os.utime(os.path.join(box, same_stat[1]), ns=(st.st_atime_ns, st.st_mtime_ns))
+
+
+def _fresh(box, files, symlinked=None):
     for name, body in files.items():
         if name == symlinked:
             os.makedirs(os.path.join(box, "real"), exist_ok=True)
@@ -194,14 +204,20 @@ def scenario(rng):
         argv = ["-x", C19.FAKE, "-i", "old.priv", "-c", "old.pub", "-r", "new.priv", "-u", "new.pub", "-b", "t.yaml"]
         tool = "eyaml_rotate_keys"
     backup = "-b" in argv
+    stale_twin = False
     if stale and backup:
         files[target + ".bak"] = "a stale backup from an earlier run\n"
+        if rng.random() < 0.4:
+            # a stale backup that LOOKS like the target to a stat() comparison: same size, same mtime, other content
+            body = files[target]
+            files[target + ".bak"] = "".join("#" if (i % 7 == 3 and c not in "\n") else c for i, c in enumerate(body))
+            stale_twin = files[target + ".bak"] != body
     return {"kind": kind, "tool": tool, "argv": argv, "files": files, "target": target, "backup": backup, "env": env,
-            "symlinked": target if backup and rng.random() < 0.25 else None}
+            "symlinked": target if backup and rng.random() < 0.25 else None, "stale_twin": stale_twin}
 
 
 def run_in(box, sc, fault=None, child=False):
-    fresh(box, sc["files"], sc.get("symlinked"))
+    fresh(box, sc["files"], sc.get("symlinked"), (sc["target"], sc["target"] + ".bak") if sc.get("stale_twin") else None)
     if child:
         spec = {"tool": sc["tool"], "argv": sc["argv"], "sandbox": box, "fault": fault, "env": sc["env"]}
         env = dict(os.environ)
@@ -252,6 +268,8 @@ def part_b(ctx, rng, box):
     case = {"part": "B", "scenario": sc["kind"], "argv": sc["argv"], "files": sc["files"], "symlinked": sc.get("symlinked")}
     if sc.get("symlinked"):
         ctx.counters["b_symlinked_targets"] = ctx.counters.get("b_symlinked_targets", 0) + 1
+    if sc.get("stale_twin"):
+        ctx.counters["b_stale_backup_with_equal_stat"] = ctx.counters.get("b_stale_backup_with_equal_stat", 0) + 1
     ctx.counters["b_scenarios"] = ctx.counters.get("b_scenarios", 0) + 1
     ctx.counters["b/" + sc["kind"]] = ctx.counters.get("b/" + sc["kind"], 0) + 1
     if base["exc"] or base["code"] != 0:
